@@ -187,6 +187,18 @@ fn insert_step(two_ranges: bool) {
         assert!(db.ineffective_deletes == 0, "C02-DB: a gap DELETE matched no persisted row");
         assert!(db.pk_conflicts == 0);
     }
+    // partial records of versions that were not inside a removed gap survive the insertion
+    // (partial versions are never inside a gap, so: all of them)
+    if let Some(ps) = pre.partials[0] {
+        match bv.partials.get(&CrsqlDbVersion(ps.version)) {
+            Some(p) => {
+                assert!(mask_of_seqs(&p.seqs) == ps.seq_mask && p.last_seq.0 == ps.last_seq, "C02: a partial record changed during version insertion")
+            }
+            None => {
+                assert!(false, "C02: a partial record (received sequences of a partially held version) was dropped by a version insertion")
+            }
+        }
+    }
     // an inserted version is now known; a version that stayed needed is not
     let v: u64 = kani::any();
     kani::assume(v >= 1 && v <= N);
